@@ -6,7 +6,9 @@
 package main
 
 import (
+	"bytes"
 	"context"
+	"crypto/sha256"
 	"encoding/json"
 	"flag"
 	"fmt"
@@ -29,7 +31,28 @@ import (
 	"verif/ref/reftx"
 )
 
-var params = refchain.DefaultParams()
+var wsOP1 = func() []byte { h := sha256.Sum256([]byte{0x51}); return append([]byte{0x00, 0x20}, h[:]...) }()
+
+// verify: the trivial language plus P2WSH(OP_1), which is valid iff spent with witness [0x51]
+// and an empty scriptSig once the witness rules are active (they are, from height 6).
+func verify(tx *reftx.Tx, idx int, spent []refchain.Coin, f refchain.Flags) bool {
+	if bytes.Equal(spent[idx].Script, wsOP1) {
+		in := &tx.In[idx]
+		if !f.Witness {
+			return len(in.Script) == 0
+		}
+		return len(in.Script) == 0 && len(in.Witness) == 1 && bytes.Equal(in.Witness[0], []byte{0x51})
+	}
+	return refchain.Trivial(tx, idx, spent, f)
+}
+
+var params = func() refchain.Params {
+	p := refchain.DefaultParams()
+	p.Verify = verify
+	return p
+}()
+
+const fanOut = 70
 
 var watchdog = 120 * time.Second
 
@@ -49,6 +72,8 @@ type prefix struct {
 	cb     []refchain.Outpoint // cb[h] = coinbase outpoint of height h
 	M      [32]byte            // 4-output tx (OP_1,OP_1,OP_1,OP_0) confirmed in the prefix
 	N      [32]byte            // 2-output tx
+	W      [32]byte            // output 0: P2WSH(OP_1), output 1: OP_1
+	T      [][32]byte          // fanOut one-output transactions (distinct txids), confirmed in block 105
 	model  *refchain.Model
 	height uint32
 }
@@ -63,6 +88,7 @@ func buildPrefix() *prefix {
 	e := minichain.Open(p.dir, &minichain.Opts{Params: params})
 	prev := minichain.GenesisHash
 	p.cb = make([]refchain.Outpoint, prefixLen+1)
+	var fan [32]byte
 	for h := uint32(1); h <= prefixLen; h++ {
 		s := minichain.Spec{Prev: prev, Height: h, CbValue: -1}
 		if h == 102 {
@@ -75,6 +101,25 @@ func buildPrefix() *prefix {
 			n := minichain.Spend([]refchain.Outpoint{p.cb[2]}, []reftx.Out{o1(25e8), o1(25e8)})
 			p.N = n.TxID()
 			s.Txs = append(s.Txs, n)
+		}
+		if h == 104 {
+			w := minichain.Spend([]refchain.Outpoint{p.cb[3]}, []reftx.Out{{Value: 25e8, Script: wsOP1}, o1(25e8)})
+			p.W = w.TxID()
+			var fo []reftx.Out
+			for i := 0; i < fanOut; i++ {
+				fo = append(fo, o1(7e7))
+			}
+			f := minichain.Spend([]refchain.Outpoint{p.cb[4]}, fo)
+			fan = f.TxID()
+			s.Txs = append(s.Txs, w, f)
+			s.Fees = 50e8 - fanOut*7e7
+		}
+		if h == 105 {
+			for i := 0; i < fanOut; i++ {
+				t := minichain.Spend([]refchain.Outpoint{op(fan, uint32(i))}, []reftx.Out{o1(7e7)})
+				p.T = append(p.T, t.TxID())
+				s.Txs = append(s.Txs, t)
+			}
 		}
 		b := minichain.Build(s)
 		if r := e.Deliver(b.Bytes()); r != "ok" {
@@ -200,6 +245,7 @@ type bspec struct {
 	txs          []*reftx.Tx
 	fees         uint64
 	cbExtra      uint64 // claim more than allowed
+	witness      bool   // add the witness commitment
 }
 
 func (p *prefix) mk(name string, specs []bspec) *tmpl {
@@ -209,7 +255,7 @@ func (p *prefix) mk(name string, specs []bspec) *tmpl {
 	hash := map[string][32]byte{"P": p.tip}
 	for _, s := range specs {
 		h := height[s.parent] + 1
-		sp := minichain.Spec{Prev: hash[s.parent], Height: h, Tag: s.tag, Txs: s.txs, Fees: s.fees, CbValue: -1}
+		sp := minichain.Spec{Prev: hash[s.parent], Height: h, Tag: s.tag, Txs: s.txs, Fees: s.fees, CbValue: -1, Witness: s.witness}
 		if s.cbExtra > 0 {
 			sp.CbValue = int64(refchain.Subsidy(h) + s.fees + s.cbExtra)
 		}
@@ -306,6 +352,48 @@ func templates(p *prefix, thorough bool) []*tmpl {
 			}
 			ts = append(ts, p.mk(fmt.Sprintf("heavier-branch-invalid-at-%d-%s", pos, k.kind), specs))
 		}
+	}
+	// T5: a heavier branch that is invalid only under a height-gated script rule (a witness
+	// program spent without its witness), and its valid counterpart.
+	{
+		bad := sp(ops(op(p.W, 0)), outs(o1(25e8)))
+		good := sp(ops(op(p.W, 0)), outs(o1(25e8)))
+		good.In[0].Witness = [][]byte{{0x51}}
+		later := sp(ops(op(p.W, 1)), outs(o1(25e8)))
+		for _, v := range []struct {
+			name string
+			tx   *reftx.Tx
+			wit  bool
+		}{{"heavier-branch-invalid-only-under-height-gated-script-rules", bad, false}, {"heavier-branch-spends-witness-program-with-witness", good, true}} {
+			ts = append(ts, p.mk(v.name, []bspec{
+				{name: "A1", parent: "P", tag: 1, txs: []*reftx.Tx{later}},
+				{name: "A2", parent: "A1", tag: 1},
+				{name: "B1", parent: "P", tag: 2, txs: []*reftx.Tx{v.tx}, witness: v.wit},
+				{name: "B2", parent: "B1", tag: 2, txs: []*reftx.Tx{later}},
+				{name: "B3", parent: "B2", tag: 2},
+			}))
+		}
+	}
+	// T6: blocks whose inputs come from 32/33/34 and 64/65/66 distinct confirmed transactions
+	// (the UTXO commit deletes spent records in batches), on competing branches.
+	for _, n := range [][2]int{{33, 66}, {32, 65}, {34, 64}} {
+		many := func(from, cnt int) *reftx.Tx {
+			var in []refchain.Outpoint
+			for i := 0; i < cnt; i++ {
+				in = append(in, op(p.T[from+i], 0))
+			}
+			return sp(in, outs(o1(uint64(cnt)*7e7)))
+		}
+		if !thorough && n[0] != 33 {
+			continue
+		}
+		ts = append(ts, p.mk(fmt.Sprintf("blocks-spending-%d-and-%d-distinct-transactions", n[0], n[1]), []bspec{
+			{name: "A1", parent: "P", tag: 1, txs: []*reftx.Tx{many(2, n[0])}},
+			{name: "A2", parent: "A1", tag: 1},
+			{name: "B1", parent: "P", tag: 2, txs: []*reftx.Tx{many(0, n[1])}},
+			{name: "B2", parent: "B1", tag: 2},
+			{name: "B3", parent: "B2", tag: 2, txs: []*reftx.Tx{many(n[1], fanOut-n[1])}},
+		}))
 	}
 	// T4: equal-work ties at depth 2 and a late tie-breaker.
 	{
